@@ -276,13 +276,18 @@ def trim_case(case, keep=10):
     return case
 
 
+def out_dir():
+    """where evidence and new replay files go (HXV_OUT redirects them for mutant campaigns)"""
+    return os.environ.get("HXV_OUT") or VERIF
+
+
 def write_replay(prop, sig, shard_name, info):
     from hxv.lib import case_hash
 
-    d = os.path.join(VERIF, "replay", prop)
+    d = os.path.join(out_dir(), "replay", prop)
     os.makedirs(d, exist_ok=True)
     rel = os.path.join("replay", prop, case_hash([sig, info["case"]]) + ".json")
-    with open(os.path.join(VERIF, rel), "w") as fh:
+    with open(os.path.join(out_dir(), rel), "w") as fh:
         json.dump(
             {"property": prop, "shard": shard_name, "signature": sig, "detail": info["detail"], "case": info["case"]},
             fh,
@@ -420,9 +425,9 @@ def main_check(prop, tier, seed, only=None, jobs=None):
     extra = getattr(mod, "extra_evidence", None)
     if extra:
         evidence["coverage"].update(extra(tier))
-    os.makedirs(os.path.join(VERIF, "evidence"), exist_ok=True)
+    os.makedirs(os.path.join(out_dir(), "evidence"), exist_ok=True)
     if only is None:
-        with open(os.path.join(VERIF, "evidence", f"{prop}.json"), "w") as fh:
+        with open(os.path.join(out_dir(), "evidence", f"{prop}.json"), "w") as fh:
             json.dump(evidence, fh, indent=1, default=str)
 
     for ln in lines:
